@@ -218,5 +218,7 @@ var s2sNonceKey = []string{"s2s", "nonce"}
 
 // s2sNonceStore is used by the authorization server for replay prevention by keeping track of used nonces in the s2s flow
 func (r Wrapper) s2sNonceStore() storage.SessionStore {
-	return r.storageEngine.GetSessionDatabase().GetStore(s2sMaxPresentationValidity+s2sMaxClockSkew, s2sNonceKey...)
+	// A presentation is accepted from s2sMaxClockSkew before its creation until s2sMaxClockSkew after its expiration,
+	// so its nonce must be remembered for the maximum validity plus twice the clock skew after it was first seen.
+	return r.storageEngine.GetSessionDatabase().GetStore(s2sMaxPresentationValidity+2*s2sMaxClockSkew, s2sNonceKey...)
 }
